@@ -8,6 +8,8 @@ the decrypt call in a fresh child process for honest large plaintexts and for bo
 """
 from __future__ import annotations
 
+import copy
+
 import json
 import os
 import subprocess
@@ -278,6 +280,53 @@ def memory_case(ctx, token, rk, allow, label, expect_ok):
 WORDS = ["confirmation", "code", "the", "b ", "ch", "cl", "co", "user", "42", "{", "\"", ":", " ", "\n", "id", "é", "a", "Z", "0", "-", "_", ".", "token", "=", "&"]
 
 
+def first_octet_cases(ctx, rng):
+    """plaintexts whose raw DEFLATE stream begins with the octet 0x9C - the second octet of the zlib header the decoder sniffs for and the
+    compressor cuts off (a first block that is not final, dynamic Huffman, HLIT = 19: some tens of KB of text with repeats of up to 58
+    octets).  They round-trip like any other plaintext."""
+    j = J.load()
+    key = gen.new_oct(128)
+    jk = j.key(key)
+    A = ["dir", "A128GCM", "DEF"]
+    alpha = b"abcdefghijklmnopqrstuvwxyzABCDEFGHIJKLMNOPQRSTUVWXYZ0123456789 .,\n"
+    found = 0
+    for trial in range(400):
+        n = rng.randrange(30000, 70000)
+        maxrep = rng.choice([55, 58, 58])
+        out = bytearray()
+        while len(out) < n:
+            if len(out) > 200 and rng.random() < 0.05:
+                L = rng.randrange(4, maxrep + 1)
+                st = rng.randrange(0, len(out) - L)
+                out += out[st:st + L]
+            else:
+                out += bytes(rng.choice(alpha) for _ in range(rng.randrange(1, 12)))
+        pt = bytes(out)
+        raw = zlib.compress(pt)[2:-4]
+        if raw[0] != 0x9C:
+            continue
+        found += 1
+        ctx.ev()
+        o = call(j.jwe.encrypt_compact, {"alg": "dir", "enc": "A128GCM", "zip": "DEF"}, pt, jk, algorithms=A)
+        back = call(j.jwe.decrypt_compact, o.value, jk, algorithms=A) if o.ok else o
+        b = g.make("compact", "A128GCM", [("dir", key, None)], b"", zip_=True, compressed=raw)
+        back2 = call(j.jwe.decrypt_compact, b.token, jk, algorithms=A)
+        ctx.count("decrypts", 2)
+        ctx.count("within_limit", 2)
+        ctx.count("first_octet_9c_cases")
+        ctx.nontrivial(("first-octet", trial))
+        ctx.cell("first-octet-0x9c", "roundtrip", "ok" if (back.ok and back2.ok) else "FAILED")
+        for variant, r in (("joserfc", back), ("ref", back2)):
+            if not r.ok:
+                ctx.violation(f"within-limit-rejected:{r.etype}:first-octet-9c", f"a {len(pt)}-octet text whose raw DEFLATE stream starts with 0x9C ({variant} stream) does not "
+                              f"round-trip: {r.exc!r}", {"variant": variant, "len": len(pt)})
+            elif r.value.plaintext != pt:
+                ctx.violation("plaintext-differs:first-octet-9c", f"a {len(pt)}-octet text whose raw DEFLATE stream starts with 0x9C comes back changed ({variant})",
+                              {"variant": variant, "len": len(pt)})
+        if found >= 4 or ctx.out_of_time():
+            break
+
+
 def many_small(ctx, rng, n):
     j = J.load()
     key = gen.new_oct(128)
@@ -423,6 +472,45 @@ def run_shard(ctx):
         # many small plaintexts: the first octets of a raw stream vary with the content, nothing in them may be taken for a header
         if ctx.shard in (15, 14, 2):
             many_small(ctx, rng, 700 if ctx.tier == "quick" else 30000)
+        if ctx.shard in (11, 10):
+            first_octet_cases(ctx, rng)
+        if ctx.shard in (8, 9):
+            # a raw stream that begins with the octets 78 9c (a stored block whose unused header bits are set - RFC 1951 ignores them) followed by
+            # a bomb: whichever way the decoder reads it, what comes back stays within the limit
+            mib = 32 if ctx.tier == "quick" else 256
+            st = b"\x78\x9c\x00\x63\xff" + b"A" * 0x9C + bomb_stream(mib)
+            form = ["compact", "flattened"][ctx.shard - 8]
+            alg_ = "dir" if form == "compact" else "A128KW"
+            enc_ = g.RFC_ENCS[ctx.shard - 8]
+            rk_, _ = g.keys_for(alg_, enc_)
+            tk = g.make(form, enc_, [(alg_, rk_, None)], b"", zip_=True, compressed=st).token
+            mon.proxy.reset()
+            jj = J.load()
+            ctx.ev()
+            o = call(jj.jwe.decrypt_compact if isinstance(tk, str) else jj.jwe.decrypt_json, copy.deepcopy(tk), jj.key(rk_), algorithms=[alg_, enc_, "DEF"])
+            ctx.count("decrypts")
+            ctx.count("beyond_limit")
+            ctx.nontrivial(("raw-789c-bomb", form))
+            ctx.cell("ref-raw-starting-789c-then-bomb", form, "returned" if o.ok else o.etype)
+            dsc = {"stream": "raw DEFLATE beginning 78 9c, then a bomb", "form": form, "mib": mib}
+            if o.ok:
+                ctx.violation("over-limit-returned:raw-789c", f"{len(o.value.plaintext)} octets returned for a raw stream beginning 78 9c that inflates to {mib} MiB", dsc)
+            elif not o.is_a("JoseError", "ValueError"):
+                ctx.violation(f"bomb-escapes:{o.key}", f"raw stream beginning 78 9c: {o.exc!r}", dsc)
+            if mon.proxy.out_total > 2 * LIMIT:
+                ctx.violation("inflater-unbounded", f"the inflater handed back {mon.proxy.out_total} octets for a raw stream beginning 78 9c (limit {LIMIT})", dsc)
+            memory_case(ctx, tk, rk_, [alg_, enc_, "DEF"], "raw-789c-bomb", False)
+            # and within the limit: refused or returned whole, never something else
+            small = b"\x78\x9c\x00\x63\xff" + b"A" * 0x9C + zlib.compress(b"tail " * 100)[2:-4]
+            b = g.make("compact", "A128GCM", [("dir", gen.new_oct(128), None)], b"", zip_=True, compressed=small)
+            o = call(J.load().jwe.decrypt_compact, b.token, J.load().key(b.recs[0]["key"]), algorithms=["dir", "A128GCM", "DEF"])
+            ctx.count("decrypts")
+            if o.ok and o.value.plaintext != b"A" * 0x9C + b"tail " * 100:
+                ctx.violation("raw-789c-stream-other-plaintext", f"a raw stream beginning 78 9c yields {len(o.value.plaintext)} octets that are not its content", {"stream": "raw-789c"})
+            elif o.ok:
+                ctx.count("within_limit")
+            else:
+                ctx.open("legal-raw-stream-beginning-789c-refused")
         # the compressor emits raw DEFLATE
         if ctx.shard == 8:
             import joserfc.rfc7518.jwe_zips as zm
